@@ -754,12 +754,9 @@ func writeEvidence(ps *PropSpec, tier string, seed int, wall float64, results []
 		"seed":        seed,
 		"level":       ps.Level,
 		"coverage":    cov,
-		"assumptions": append(keys(assumes), ps.TrustedBase...),
+		"assumptions": append(append([]string{}, keys(assumes)...), ps.TrustedBase...),
 		"wall_s":      round2(wall),
 		"violations":  nViol,
-	}
-	if ev["assumptions"] == nil {
-		ev["assumptions"] = []string{}
 	}
 	os.MkdirAll(filepath.Join(verifDir, "evidence"), 0o755)
 	b, _ := json.MarshalIndent(ev, "", " ")
